@@ -3,8 +3,9 @@
   (helper lemmas: Lemmas/Cobs.lean, Lemmas/Encode.lean).
 -/
 import MptModel.Lemmas.Cobs
+import MptModel.Lemmas.Encode
 namespace Mpt.C01
-open Mpt.Cobs
+open Mpt.Cobs Mpt.Codec
 
 /-- decode ∘ encode = id for COBS, COBS/R, COBS/ZPE, COBS/ZPE+R and every message -/
 theorem roundtrip (v : Variant) (m : List Byte) : dec v (enc v m) = some m := by
@@ -61,5 +62,51 @@ theorem py_roundtrip (m : List Byte) : dec .cobs (pyEnc m) = some m := by
   rw [py_refines]; exact roundtrip .cobs m
 
 example : pyEnc [1, 0, 2] = [2, 1, 2, 2, 0] := by decide
+
+
+/-! ### the implementation model refines the reference encoder -/
+
+/-- full statement: whatever the pieces and however the window grows, a finished frame decodes to the
+    message (all four framings) -/
+def encoder_refines_statement : Prop :=
+  ∀ (v : Variant) (fill : Byte) (fuel : Nat) (win : List Byte) (chunks : List (List Byte)) (caps : List Nat) (o : EncOut),
+    encodeSched (.cobs v) fill fuel {} win chunks caps = .ok o →
+    dec v (o.win.take o.st.done) = some chunks.flatten
+
+/-- COBS and COBS/R: for every split of the message into push calls and every capacity growth schedule
+    (including calls that consume only part of their input or ask for space) the model encoder's finished
+    data is exactly the reference frame.  Missing for the full statement: the two ZPE framings, whose
+    frame depends on where the calls end (correspondence-checked against `encChunks`, see `roundtrip_chunks`). -/
+theorem encoder_refines_partial (v : Variant) (hz : v.isZpe = false) (fill : Byte) (fuel : Nat) (win : List Byte)
+    (chunks : List (List Byte)) (caps : List Nat) (o : EncOut)
+    (h : encodeSched (.cobs v) fill fuel {} win chunks caps = .ok o) :
+    o.win.take o.st.done = enc v chunks.flatten ∧ dec v (o.win.take o.st.done) = some chunks.flatten := by
+  have hinv : EncInv v {} win [] [] := EncInv.start v {} win [] rfl rfl (by simp) (by simp)
+  have := (sched_refines v hz fill fuel {} win chunks caps [] [] o hinv h).2.2
+  simp only [List.nil_append] at this
+  exact ⟨this, by rw [this]; exact roundtrip v _⟩
+
+example : (encodeSched (.cobs .cobsR) 0xEE 20 {} [] [[1, 2], [0, 9]] [1, 1, 2, 1, 1, 1, 1, 1]).toOption.map
+    (fun o => o.win.take o.st.done) = some (enc .cobsR [1, 2, 0, 9]) := by decide
+
+/-- frames are appended: finished data in front of the message (`pre`) is kept, whatever happens during
+    the encoding of the next message -/
+theorem encoder_appends (v : Variant) (hz : v.isZpe = false) (fill : Byte) (fuel : Nat) (st : EncState)
+    (win pre : List Byte) (chunks : List (List Byte)) (caps : List Nat) (o : EncOut)
+    (hs : st.scratch = 0) (hd : st.done = pre.length) (hw : win.take st.done = pre) (hl : st.done ≤ win.length)
+    (h : encodeSched (.cobs v) fill fuel st win chunks caps = .ok o) :
+    o.win.take o.st.done = pre ++ enc v chunks.flatten := by
+  have := (sched_refines v hz fill fuel st win chunks caps pre [] o (EncInv.start v st win pre hs hd hw hl) h).2.2
+  simpa using this
+
+/-- with enough room (two bytes per message byte, one per piece, two for the end) the encoder takes
+    every piece completely and the termination succeeds: no retry, no growth -/
+theorem encoder_total (v : Variant) (hz : v.isZpe = false) (fill : Byte) (win : List Byte) (chunks : List (List Byte))
+    (hne : ∀ c ∈ chunks, c ≠ []) (hsp : 2 * chunks.flatten.length + chunks.length + 2 ≤ win.length) :
+    ∃ o, encodeSched (.cobs v) fill (chunks.length + 1) {} win chunks [] = .ok o ∧
+      o.win.take o.st.done = enc v chunks.flatten := by
+  have hinv : EncInv v {} win [] [] := EncInv.start v {} win [] rfl rfl (by simp) (by simp)
+  obtain ⟨o, ho⟩ := sched_total v hz fill chunks {} win [] [] hne (by simpa using hsp) hinv
+  exact ⟨o, ho, (encoder_refines_partial v hz fill _ win chunks [] o ho).1⟩
 
 end Mpt.C01
